@@ -26,9 +26,9 @@ func init() { register(&Scenario{ID: "C12", Run: runC12}) }
 
 func genJID(rc *RC, label string, wantRes bool) jid.JID {
 	ch := rc.Ch
-	locals := []string{"me", "juliet", "a.b", "x_1", "münchen", "ιωάννης", "user+tag", "n0", ""}
+	locals := []string{"me", "juliet", "a.b", "x_1", "münchen", "ιωάννης", "user+tag", "n0", "50%25", "%s", "a\\20b", ""}
 	domains := []string{"example.net", "im.example.org", "müller.example", "xn--mller-kva.example", "a.b.c.example", "localhost"}
-	ress := []string{"res", "phone", "o'brien", `say "hi"`, "a&b", "a<b", "b>a", "x y", "<&'\">", "ünï", "r/with/slash", "7f'\"&<>"}
+	ress := []string{"res", "phone", "o'brien", `say "hi"`, "a&b", "a<b", "b>a", "x y", "<&'\">", "ünï", "r/with/slash", "7f'\"&<>", "50%off", "100%", "%d%v%!", "a\\b", "tab\there"}
 	for tries := 0; tries < 6; tries++ {
 		l, d, r := locals[ch.Int(label, len(locals))], domains[ch.Int(label, len(domains))], ""
 		if wantRes && ch.Chance(label, 5, 6) {
@@ -467,7 +467,15 @@ func c12Headers(rc *RC, sutReceives bool) {
 		answered := sutReceives && bytes.Count(out.Tap, []byte(hdrOpen)) >= 2
 		rc.Check("C12.c5", fmt.Sprintf("changed-address-accepted:%d:recv=%v", changed, sutReceives), err != nil && !timedOut && !answered, "after the restart the peer's header named different addresses (changed=%d) but it was not rejected: constructor returned %v, answered with a new header: %v", changed, err, answered)
 	case !hc.accept:
-		rc.Check("C12.c3", "bad-restart-header-accepted:"+hc.name, err != nil, "restart header case %q must be rejected, constructor returned nil", hc.name)
+		// as above: running into the deadline while waiting for what follows the
+		// header, or going on to advertise features on the new stream, is acceptance
+		hdrOpen, featOpen := "<stream:stream", "<stream:features"
+		if ws {
+			hdrOpen, featOpen = "<open ", "<features"
+		}
+		timedOut := errors.Is(err, context.DeadlineExceeded) || errors.Is(err, os.ErrDeadlineExceeded)
+		wentOn := sutReceives && bytes.Count(out.Tap, []byte(hdrOpen)) >= 2 && bytes.Count(out.Tap, []byte(featOpen)) >= 2
+		rc.Check("C12.c3", "bad-restart-header-accepted:"+hc.name, err != nil && !timedOut && !wentOn, "restart header case %q must be rejected; constructor returned %v, advertised features on the new stream: %v", hc.name, err, wentOn)
 	}
 }
 
